@@ -11,7 +11,14 @@ Definition builtin_exc_bases : list (string * list string) :=
    ("ArithmeticError", ["Exception"]); ("ZeroDivisionError", ["ArithmeticError"]); ("OverflowError", ["ArithmeticError"]);
    ("RuntimeError", ["Exception"]); ("RecursionError", ["RuntimeError"]); ("StopIteration", ["Exception"]);
    ("KeyboardInterrupt", ["BaseException"]); ("SystemExit", ["BaseException"]);
-   ("UnicodeError", ["ValueError"]); ("OSError", ["Exception"]); ("AssertionError", ["Exception"])].
+   ("UnicodeError", ["ValueError"]); ("OSError", ["Exception"]); ("AssertionError", ["Exception"]);
+   ("GeneratorExit", ["BaseException"]);
+   (* the user-defined classes of the C04 fault catalogue (harness/exccat.py) *)
+   ("UPlain", ["Exception"]); ("UAttr", ["Exception"]); ("UInitAttr", ["Exception"]); ("UKwOnly", ["Exception"]);
+   ("UArity", ["Exception"]); ("UPrefix", ["Exception"]); ("UKeySub", ["KeyError"]); ("UMulti", ["ValueError"; "KeyError"]);
+   ("UTypeSub", ["TypeError"]); ("UBase", ["BaseException"]);
+   ("GPlain", ["GlomError"]); ("GAttr", ["GlomError"]); ("GArity", ["GlomError"]); ("GPrefix", ["GlomError"]); ("GKwOnly", ["GlomError"]);
+   ("GPathSub", ["PathAccessError"]); ("GMatchSub", ["MatchError"])].
 
 Definition exc_bases : list (string * list string) := glom_exc_bases ++ builtin_exc_bases.
 
